@@ -70,6 +70,7 @@ type Frame struct {
 	nopanic  bool
 	unsupp   []string
 	inFrom   map[*State]*ssa.BasicBlock
+	deadVals map[*ssa.Alloc]Val
 }
 
 type engineError struct{ msg string }
